@@ -9,6 +9,7 @@ import (
 	"fmt"
 	"os"
 	"sync"
+	"time"
 
 	"github.com/ryogrid/SamehadaDB/lib/samehada"
 	"github.com/ryogrid/SamehadaDB/lib/storage/disk"
@@ -41,6 +42,12 @@ type Recorder struct {
 	mu     sync.Mutex
 	Events []Event
 	On     bool
+	// Concurrent mode (for write-ahead monitoring under real concurrency): calls are NOT serialised by the recorder;
+	// a WritePage is recorded when it is CALLED, a WriteLog when it has RETURNED (the property's notion of "on stable
+	// storage"), so a page write that starts while the log write carrying its record is still in flight is visible.
+	// LogDelay lengthens every log write (a slow fsync) to widen that window.
+	Concurrent bool
+	LogDelay   time.Duration
 }
 
 var current *Recorder
@@ -74,6 +81,14 @@ func (r *Recorder) Len() int {
 
 func (r *Recorder) ReadPage(id types.PageID, b []byte) error { return r.inner.ReadPage(id, b) }
 func (r *Recorder) WritePage(id types.PageID, b []byte) error {
+	if r.Concurrent {
+		r.mu.Lock()
+		if r.On {
+			r.Events = append(r.Events, Event{Kind: WritePage, Page: int32(id), Data: append([]byte(nil), b...)})
+		}
+		r.mu.Unlock()
+		return r.inner.WritePage(id, b)
+	}
 	r.mu.Lock()
 	defer r.mu.Unlock()
 	err := r.inner.WritePage(id, b)
@@ -90,6 +105,19 @@ func (r *Recorder) Size() int64                  { return r.inner.Size() }
 func (r *Recorder) RemoveDBFile()                { r.inner.RemoveDBFile() }
 func (r *Recorder) RemoveLogFile()               { r.inner.RemoveLogFile() }
 func (r *Recorder) WriteLog(b []byte) error {
+	if r.Concurrent {
+		data := append([]byte(nil), b...)
+		err := r.inner.WriteLog(b)
+		if r.LogDelay > 0 && len(b) > 0 {
+			time.Sleep(r.LogDelay)
+		}
+		r.mu.Lock()
+		if r.On && len(data) > 0 {
+			r.Events = append(r.Events, Event{Kind: WriteLog, Data: data})
+		}
+		r.mu.Unlock()
+		return err
+	}
 	r.mu.Lock()
 	defer r.mu.Unlock()
 	err := r.inner.WriteLog(b)
